@@ -212,8 +212,14 @@ def replay(W, behaviour, observe_every=True):
     seq = 0
     protected = False
     events = []
+    held = []          # public twins derived earlier and kept alive by the caller: key.pubkey taken later must still be current
     for n, act in enumerate(behaviour):
         op, a, tag, prim = act['op'], act['a'], act['tag'], act['prim']
+        try:
+            if key._uids:
+                held.append(key.pubkey)
+        except Exception:
+            pass
         raised = False
         extra = None
         created = K.ts(K.T0 + 100 + tick)
@@ -324,7 +330,9 @@ def generate(ctx, focus):
     if len(behs) < 1000:
         raise MachineryError('Gen_Cert produced %d behaviours' % len(behs))
     if ctx.quick:
-        behs = [b for b in behs if len(b) <= 2] + ctx.rng.sample([b for b in behs if len(b) == 3], 260)
+        d3 = [b for b in behs if len(b) == 3]
+        must = [b for b in d3 if any(a['op'] == 'third-local' for a in b[:2]) and b[2]['op'] in ('third', 'recertify', 'export_import', 'copy')]
+        behs = [b for b in behs if len(b) <= 2] + must + ctx.rng.sample([b for b in d3 if b not in must], 220)
     else:
         behs = [b for b in behs if len(b) <= 3] + ctx.rng.sample([b for b in behs if len(b) == 4], 3000)
     s = ctx.model('Gen_Cert', 'Gen_CertSim', simulate='num=%d' % (12 if ctx.quick else 150), depth=13, seed=ctx.seed + 3, workers=1)
